@@ -369,3 +369,14 @@ Definition write_ttml (d : tdoc) : res xnode :=
               ([XElem (nm ns_ttml s_head) [] head]
                ++ [XElem (nm ns_ttml s_body) [] [XElem (nm ns_ttml s_div) [] (map out_p (td_items d))]]))
   end.
+
+(* names as the encoder prints them: the struct tags spell the prefixes out *)
+Definition print_name (n : xname) : str :=
+  (if str_eqb (x_space n) ns_ttm then s_ttm ++ [58]
+   else if str_eqb (x_space n) ns_tts then s_tts ++ [58]
+   else if str_eqb (x_space n) ns_xml then [120; 109; 108; 58]
+   else if str_eqb (x_space n) s_xmlns then s_xmlns ++ [58]
+   else []) ++ x_local n.
+(* the bytes WriteToTTML emits with the indent option [ind] *)
+Definition write_ttml_bytes (ind : str) (d : tdoc) : res str :=
+  do t <- write_ttml d; Ok (print_node print_name ind 0 t).
